@@ -8,15 +8,27 @@ import Hm.C15
 import Hm.C16
 import Hm.C17
 import Hm.RespProps
+import Hm.C03C04
+import Hm.C08b
+import Hm.C10
 #print axioms C01_request_delivery_independent
 #print axioms C02_response_delivery_independent
+#print axioms C03_accepted_prefix_not_rejected
+#print axioms C03_prefix_never_rejected
+#print axioms C04_framing_bad_content_length
+#print axioms C04_framing_chunked
+#print axioms C04_framing_content_length
+#print axioms C04_framing_none
+#print axioms C04_prefix_never_rejected
 #print axioms C05_chunk_delivery_independent
 #print axioms C06_request_no_crash
 #print axioms C06_response_no_crash
+#print axioms C08_accept_within_max
 #print axioms C08_more_implies_within_max
 #print axioms C09_request_pipeline
 #print axioms C09_response_pipeline
 #print axioms C09_response_suffix_irrelevant
+#print axioms C10_response_roundtrip
 #print axioms C12_content_length
 #print axioms C12_no_trailer
 #print axioms C12_others
@@ -38,3 +50,4 @@ import Hm.RespProps
 #print axioms C17_chunk_size
 #print axioms C17_request_content_length
 #print axioms C17_status_code
+#print axioms C18_response_framing_case
